@@ -200,7 +200,7 @@ def _place(b, rng, name, spell, dirs, protect, cap):
 
 
 def gen_case(seed, tools=("parse_file", "interrogate"), focus=None):
-    """One tree + its runs.  focus: None | 'resolve' | 'once' | 'own' biases the shape."""
+    """One tree + its runs.  focus: None | 'resolve' | 'once' | 'own' | 'order' biases the shape."""
     rng = random.Random("tree:%s" % seed)
     b = _B(rng)
     focus = focus or rng.choice(["resolve", "resolve", "once", "own"])
@@ -227,6 +227,8 @@ def gen_case(seed, tools=("parse_file", "interrogate"), focus=None):
 
     # search directories: 0..4 of -I/-S over the top dirs (sometimes the working dir itself)
     nsearch = rng.choice([0, 1, 2, 2, 3, 3, 4])
+    if focus == "order":
+        nsearch = rng.choice([2, 3, 3, 4])
     search_dirs = []
     for _ in range(nsearch):
         d = rng.choice(tops + ([wd] if rng.random() < 0.1 else []))
@@ -256,6 +258,11 @@ def gen_case(seed, tools=("parse_file", "interrogate"), focus=None):
             cap = 1
         includers = [main]
         dirs = list(cand_dirs)
+        if focus == "order":
+            # same-named headers only in (several of) the search directories: the command-line order decides
+            dirs = list(dict.fromkeys(d for _, d in search_dirs))
+            cap = rng.choice([2, 2, 3])
+            spell = rng.choice(["plain", "plain", "dot", "sub"])
         if nested and i >= 1 and rng.random() < 0.7:
             # included from (every same-named copy of) h1: the copies are identical in their sites
             h1s = [u for u in b.units if u["name"] == "h1"]
